@@ -268,8 +268,19 @@ def r3(run):
             filt.append((bb, q.edge_triples(live, bb, lambda m, rel=rel: m is (rel == "eq")), opt_side[0]))
     run.exact("context comparisons in the live task", len(filt), 1, live.sp)
     none_edges = []
+    from .store_shared import subst_env
+
+    def names_ctx_option(e):
+        """Does e denote the subscription's context option - directly, or as a capture of a local copy (`let scope = options.context_id`)?"""
+        if any(y[0] == "field" and "context_id" in str(y[2]) for y in walk(e)):
+            return True
+        try:
+            e2 = subst_env(run, live, e)
+        except Exception:
+            return False
+        return any(y[0] == "field" and "context_id" in str(y[2]) for y in walk(e2))
     for bb, si in live.switches():
-        if si["kind"] == "variant" and any(y[0] == "field" and "context_id" in str(y[2]) for y in walk(si["cond"])) and not c03.is_recv_frame(si["cond"]):
+        if si["kind"] == "variant" and names_ctx_option(si["cond"]) and not c03.is_recv_frame(si["cond"]):
             for (t, lab, m) in si["edges"]:
                 ms = m if isinstance(m, tuple) else (m,)
                 if ms == ("None",):
@@ -278,7 +289,7 @@ def r3(run):
         for s in sends:
             run.ob("%s|live|context-filter" % C.READ, bool(eq_edges) and q.dominated(live, s.bb, via_edges=eq_edges + none_edges), s.sp,
                    "a live frame is delivered only on the `frame.context_id == requested context` edge (or when no context was requested)", reason="live-context-leak")
-        run.ob("%s|live|context-filter-operand" % C.READ, any(y[0] == "field" and "context_id" in str(y[2]) for y in walk(opt)), live.blocks[bb]["term"]["sp"],
+        run.ob("%s|live|context-filter-operand" % C.READ, names_ctx_option(opt), live.blocks[bb]["term"]["sp"],
                "the comparison is against the subscription's own context option: %s" % fmt(strip(opt)), reason="live-context-leak")
     # the same option value scopes the historical scan
     rb = read_bodies(run)
